@@ -242,3 +242,28 @@ def sleep(seconds):
 
 def dumps(o):
     return json.dumps(o, separators=(",", ":"))
+
+
+def override_strategy(strat, ov, freq):
+    """applies overrides {maxUnavailable, maxPodSchedulerFailure, maxParallelPodCreation,
+    slowStartIntervalDuration (s), slowStartAdditiveIncrease, reconcileFrequency (s)}; returns the frequency"""
+    ru = strat["rollingUpdate"]
+    for k in ("maxUnavailable", "maxPodSchedulerFailure", "maxParallelPodCreation", "slowStartAdditiveIncrease"):
+        if k in ov:
+            ru[k] = ov[k]
+    if "slowStartIntervalDuration" in ov:
+        ru["slowStartIntervalDuration"] = dur(ov["slowStartIntervalDuration"])
+    if "reconcileFrequency" in ov:
+        freq = ov["reconcileFrequency"]
+        strat["reconcileFrequency"] = dur(freq)
+    return freq
+
+
+def override_canary(canary, ov):
+    for k, v in ov.items():
+        if k in ("autoPause", "autoFail"):
+            canary.setdefault(k, {}).update(v)
+        elif v is None:
+            canary.pop(k, None)
+        else:
+            canary[k] = v
